@@ -888,6 +888,9 @@ class World:
         # connections: GET, POST, POST response, then the GET's response), one whose capture starts in mid-session
         out["aes_hmac~delayed"] = C2Http(self.bconfig, aes_key=aes_key, hmac_key=hmac_key)
         out["aes_hmac~latestart"] = C2Http(self.bconfig, aes_key=aes_key, hmac_key=hmac_key)
+        # the RSA key alone on a capture that starts in mid-session: nothing decodes until the first check-in it sees
+        # (ValueError each time), everything does afterwards
+        out["rsa~latestart"] = C2Http(self.bconfig, rsa_private_key=self.priv)
         return out
 
     def _tap_order(self, kk, vname):
